@@ -649,11 +649,14 @@ fn apply_mutations(
         .read(params.command_markers, &*client_entity);
 
     let Some(mut history) = client_entity.get_mut::<ConfirmHistory>() else {
-        return Err(format!(
-            "entity `{}` missing history component inserted on the first update message",
+        // The entity exists only as a reference from a mapped component. Its own data is not
+        // replicated (anymore), so these mutations arrived after a despawn from an update message.
+        debug!(
+            "ignoring mutations received for non-replicated `{}`",
             client_entity.id()
-        )
-        .into());
+        );
+        message.advance(data_size);
+        return Ok(());
     };
 
     let new_tick = message_tick > history.last_tick();
